@@ -1,0 +1,105 @@
+//! Verification hooks. Compiled only with `--cfg ts_rs_verif`; never part of a normal build.
+//!
+//! * pure re-exports of the internal string/path functions, so that they can be called
+//!   directly on generated inputs;
+//! * a reset of the process-wide export registry, so that many export histories can be
+//!   replayed in one process;
+//! * named points inside `export_and_merge`, which call an optional process-global callback
+//!   (used to log events while the registry lock is held, and to pause a thread there).
+use std::{
+    path::{Path, PathBuf},
+    sync::{Arc, RwLock},
+};
+
+use super::ExportError;
+
+pub type Callback = Arc<dyn Fn(&str, &Path, &str) + Send + Sync>;
+
+static CALLBACK: RwLock<Option<Callback>> = RwLock::new(None);
+
+/// Installs (or removes) the callback invoked at every hook point.
+pub fn set_callback(cb: Option<Callback>) {
+    *CALLBACK.write().unwrap_or_else(|e| e.into_inner()) = cb;
+}
+
+pub(super) fn point(name: &str, path: &Path, type_name: &str) {
+    let cb = CALLBACK.read().unwrap_or_else(|e| e.into_inner()).clone();
+    if let Some(cb) = cb {
+        cb(name, path, type_name);
+    }
+}
+
+/// Marks the critical section of `export_and_merge`: "Lock" when entered (the registry lock
+/// has just been acquired), "Unlock" when left by any path (dropped before the lock guard).
+pub(super) struct Section {
+    path: PathBuf,
+    type_name: String,
+}
+
+impl Section {
+    pub(super) fn enter(path: &Path, type_name: &str) -> Self {
+        point("Lock", path, type_name);
+        Section {
+            path: path.to_owned(),
+            type_name: type_name.to_owned(),
+        }
+    }
+}
+
+impl Drop for Section {
+    fn drop(&mut self) {
+        point("Unlock", &self.path, &self.type_name);
+    }
+}
+
+/// Forgets everything the process has exported so far (and clears a poisoned lock).
+pub fn reset_export_registry() {
+    let m = super::get_export_paths();
+    match m.lock() {
+        Ok(mut g) => g.clear(),
+        Err(p) => p.into_inner().clear(),
+    }
+    m.clear_poison();
+}
+
+/// Is the registry lock poisoned?
+pub fn registry_poisoned() -> bool {
+    super::get_export_paths().is_poisoned()
+}
+
+/// Snapshot of the registry: path as keyed -> sorted type names.
+pub fn registry_snapshot() -> Vec<(PathBuf, Vec<String>)> {
+    let m = super::get_export_paths();
+    let g = match m.lock() {
+        Ok(g) => g,
+        Err(p) => p.into_inner(),
+    };
+    let mut v: Vec<_> = g
+        .iter()
+        .map(|(k, s)| {
+            let mut names: Vec<_> = s.iter().cloned().collect();
+            names.sort();
+            (k.clone(), names)
+        })
+        .collect();
+    v.sort();
+    v
+}
+
+pub fn merge(original_contents: String, new_contents: String) -> String {
+    super::merge(original_contents, new_contents)
+}
+
+pub fn import_path(from: &Path, import: &Path) -> Result<String, ExportError> {
+    super::import_path(from, import)
+}
+
+pub fn diff_paths(path: &Path, base: &Path) -> Result<PathBuf, ExportError> {
+    super::path::diff_paths(path, base)
+}
+
+pub fn absolute(path: &Path) -> Result<PathBuf, ExportError> {
+    super::path::absolute(path)
+}
+
+pub const NOTE: &str = super::NOTE;
